@@ -85,12 +85,12 @@ Example ex_history_ok :
 Proof. split; [vm_compute; reflexivity|]. eexists. vm_compute. reflexivity. Qed.
 
 (* R: the faithful model of the code AS IT IS refutes insert_deriv_wf without ins_guard: a read-only
-   shapeless Scalar takes a derivative of shape (3,), which is collapsed to its first element AFTER
+   shapeless Scalar takes a derivative of shape (1,), which is collapsed to its single element AFTER
    the read-only state was matched; the stored derivative is not read-only. *)
 Definition ro_shapeless :=
   bare (mkcore CScalar [] [] [] [] 0 0 0 1 1 1 1 (VScalar KFloat) (MBool false) (VScalar KFloat) false true None None).
 Definition deriv3 :=
-  bare (mkcore CScalar [3] [] [] [] 0 0 0 3 1 1 1 (VArr KFloat [3]) (MBool false) (VScalar KFloat) false false (Some true) None).
+  bare (mkcore CScalar [1] [] [] [] 0 0 0 1 1 1 1 (VArr KFloat [1]) (MBool false) (VScalar KFloat) false false (Some true) None).
 Theorem C05_insert_collapse_refuted : exists p',
   wf ex_table ro_shapeless = true /\ wf ex_table deriv3 = true /\
   insert_deriv ex_table ro_shapeless "t"%string deriv3 = Some p' /\ wf ex_table p' = false /\
